@@ -250,13 +250,18 @@ def setpoint_shift(chk: Check, repo: Repo) -> None:
     tk, fk = cls.methods["to_knx"], cls.methods["from_knx"]
     chk.unit(tk); chk.unit(fk)
     conv = [n for n in walk_local(tk.node) if isinstance(n, ast.Assign) and isinstance(n.targets[0], ast.Name) and n.targets[0].id == "converted_value"]
-    back = [n for n in walk_local(fk.node) if isinstance(n, ast.Return) and isinstance(n.value, ast.BinOp)]
+    back = [n for n in walk_local(fk.node) if isinstance(n, ast.Return) and n.value is not None and any(isinstance(x, ast.Attribute) and x.attr == "setpoint_shift_step" for x in ast.walk(n.value))]
     if len(conv) != 1 or len(back) != 1:
         raise AnalysisError("RemoteValueSetpointShift: step conversion not found")
     a1, b1 = affine(conv[0].value, tk.node.args.args[1].arg, {})
-    a2, b2 = affine(back[0].value, "payload_value", {})
-    ok = a2 * a1 == LP.const(1) and (a2 * b1 + b2) == LP()
-    chk.ob("setpoint-shift-directions-are-inverse", tk.site(), ok, f"to_knx: v -> ({a1})*v + ({b1}); from_knx: r -> ({a2})*r + ({b2})", key="shift|inverse")
+    quant = [c for c in calls(back[0]) if call_name(c) == "round" and len(c.args) > 1]
+    try:
+        a2, b2 = affine(back[0].value, "payload_value", {})
+        ok = not quant and a2 * a1 == LP.const(1) and (a2 * b1 + b2) == LP()
+        detail = f"to_knx: v -> ({a1})*v + ({b1}); from_knx: r -> ({a2})*r + ({b2})" + (f"; but the decoder quantises with `{ast.unparse(quant[0])}` independently of the step" if quant else "")
+    except AnalysisError as err:
+        ok, detail = False, f"from_knx `{ast.unparse(back[0].value)}` is not the inverse affine map ({err})"
+    chk.ob("setpoint-shift-directions-are-inverse", tk.site(), ok, detail, key="shift|inverse")
 
 
 def truncation_lint(chk: Check, repo: Repo) -> None:
